@@ -238,13 +238,17 @@ def close_connection(src, consts):
     f = src.func('channel0.py', 'Channel0', '_close_connection')
     b = body_of(f)
     if len(b) != 2:
-        raise ExtractError('_close_connection: expected `set state; if <code test>: ...`')
+        raise ExtractError('_close_connection: expected the state change and `if <code test>: ...`')
+    # the two statements may come in either order (the handler is one atomic step of this model; the
+    # order matters to concurrent readers of the state and is extracted separately for C07)
+    if isinstance(b[0], ast.If):
+        b = [b[1], b[0]]
     fn, call = call_of(b[0])
     if fn != 'self._set_connection_state' or len(call.args) != 1:
-        raise ExtractError('_close_connection: first statement is not the state change')
+        raise ExtractError('_close_connection: the state change is missing')
     state = state_value(consts, call.args[0])
     if not isinstance(b[1], ast.If) or b[1].orelse:
-        raise ExtractError('_close_connection: second statement is not a plain if')
+        raise ExtractError('_close_connection: the reason is not recorded by a plain if')
     tr = ExprTr({'frame_in.reply_code': 'code'})
     cond = tr.cond(b[1].test)
     env = {}
